@@ -19,6 +19,7 @@ import Oas3Model.Driver.Flags
 import Oas3Model.Driver.Inject
 import Oas3Model.Driver.ReqInterop
 import Oas3Model.Driver.Valid
+import Oas3Model.Driver.DefaultsDoc
 open Lean Oas3.Driver
 
 def allOps : List (String × Handler) := List.flatten [
@@ -42,6 +43,7 @@ def allOps : List (String × Handler) := List.flatten [
   Oas3.Driver.Inject.ops,
   Oas3.Driver.ReqInterop.ops,
   Oas3.Driver.Valid.ops,
+  Oas3.Driver.DefaultsDoc.ops,
   []]
 
 def handleLine (line : String) : String :=
